@@ -920,13 +920,96 @@ BOUNDS = {
 }
 
 
+# ---- scale family: many distinct unknown parents at once (a BFS over 3 local IDs cannot get there) ----------------------------
+FLOOD_SIZES = {"quick": [1, 99, 100, 101, 255, 256, 257, 1023, 1024, 1025], "thorough": [1, 99, 100, 101, 255, 256, 257, 1023, 1024, 1025, 4095, 4096, 4097, 20000]}
+
+
+def _flood_case(n: int):
+    """One closed-form history in region 0: child c (local 10) of unknown parent p (local 20); then n further prims (locals 1000+i), each
+    naming its own never-seen parent (locals 500000+i); then p, the first flood parent and the last flood parent are announced.  However many
+    parents are being waited for, an orphan is held until its parent appears, is then adopted (both directions), and a kill of the
+    parent takes the adopted child with it.  Only public lookups are used."""
+    from hmc.core import Part
+    from hippolyzer.lib.base.datatypes import UUID
+    import logging
+    logging.getLogger("hippolyzer").setLevel(logging.CRITICAL)  # the library warns once per orphan above 100
+    part = Part()
+    part.count("evaluations")
+    part.count("flood_scenarios")
+    wit = {"family": "flood", "n": n}
+    site = f"flood[n={n}]"
+    lw = wh.build_world(1, _vo_chain("stale-first", [0]), SETTINGS)
+    region = lw.regions[0]
+    H = wh.HANDLES[0]
+
+    def announce(local, parent, full_int):
+        data = bytes(wh._SER.serialize(wh._build("ObjectUpdate", H, UUID(int=full_int), local, parent, PCode.PRIMITIVE, 1)))
+        wh.deliver(lw, region, data)
+
+    def expect_link(child_l, parent_l, when):
+        c = region.objects.lookup_localid(child_l)
+        p_ = region.objects.lookup_localid(parent_l)
+        if c is None or p_ is None:
+            part.violation("local-index-vs-model", site, wit, f"{when}: lookup_localid({child_l})={c is not None}, lookup_localid({parent_l})={p_ is not None}; both were announced and not killed")
+            return False
+        ok = True
+        if c.Parent is None or c.Parent.LocalID != parent_l:
+            part.violation("parent-link", site, wit, f"{when}: local {child_l} names parent {parent_l}, which is tracked, but Parent={c.Parent!r}")
+            ok = False
+        if list(p_.ChildIDs).count(child_l) != 1:
+            part.violation("children-vs-parent-links", site, wit, f"{when}: parent {parent_l} ChildIDs={list(p_.ChildIDs)[:5]} should hold {child_l} exactly once")
+            ok = False
+        return ok
+
+    try:
+        announce(10, 20, 0xC0000)
+        for i in range(n):
+            announce(1000 + i, 500000 + i, 0xD00000 + i)
+        lw.loop.run_ready() if hasattr(lw.loop, "run_ready") else None
+        # everything announced is tracked, parents unknown
+        missing = [l for l in [10] + [1000 + i for i in range(n)] if region.objects.lookup_localid(l) is None]
+        if missing:
+            part.violation("local-index-vs-model", site, wit, f"{len(missing)} announced objects are not tracked, e.g. local {missing[0]}")
+        if len(lw.session.objects) != n + 1:
+            part.violation("full-index-vs-model", site, wit, f"len(session.objects)={len(lw.session.objects)}, announced {n + 1}")
+        announce(20, 0, 0xB0000)
+        expect_link(10, 20, "parent of the oldest orphan appears")
+        if n:
+            announce(500000, 0, 0xB0001)
+            expect_link(1000, 500000, "first flood parent appears")
+            if n > 1:
+                announce(500000 + n - 1, 0, 0xB0002)
+                expect_link(1000 + n - 1, 500000 + n - 1, "last flood parent appears")
+        wh.deliver(lw, region, bytes(wh._SER.serialize(wh._build("KillObject", 20))))
+        if region.objects.lookup_localid(20) is not None or region.objects.lookup_localid(10) is not None:
+            part.violation("local-index-vs-model", site, wit, f"KillObject(20): parent still tracked={region.objects.lookup_localid(20) is not None}, "
+                                                               f"its child 10 still tracked={region.objects.lookup_localid(10) is not None} (a kill removes the descendants)")
+        for exc in list(lw.recorder.raised):
+            part.violation("no-handler-raises", site, wit, f"swallowed exception: {exc!r}"[:300])
+            break
+    except Exception as e:
+        part.violation("no-handler-raises", site, wit, f"{type(e).__name__}: {str(e)[:200]} ({wh.exception_site(e)})")
+    part.mark_nontrivial(("flood", n))
+    part.outcome(("flood", n, len(lw.session.objects)))
+    return part.dump()
+
+
+def flood_family(run: Run, only=None):
+    from hmc.core import pmap
+    sizes = FLOOD_SIZES[run.tier] if only is None else [only]
+    for d in pmap(_flood_case, sizes, run.jobs):
+        run.merge(d)
+    run.coverage_extra["flood_sizes"] = sizes
+
+
 def run(run: Run):
     run.rule = ("explicit-state BFS over simulator messages (ObjectUpdate, ObjectUpdateCompressed, terse, cached hit/miss/"
                 "viewer-cache hit, ObjectProperties(Family), KillObject single/multi), request_objects/"
                 "request_object_properties, region teardown/re-track and the debounce timer, delivered to a real proxy "
                 "Session through the real UDP (de)serializer; states deduplicated on reference model + all live indices; "
                 "non-trivial = distinct states with a parent/orphan link, a limbo object, a pending request or a torn-down "
-                "region")
+                "region; + scale family: one orphan, then n prims each waiting for its own never-seen parent, n in FLOOD_SIZES "
+                "(around 100, 256, 1024; thorough to 20000), then the oldest / first / last awaited parents appear and the oldest is killed")
     run.assumptions += [
         "preconditions of the property applied from the reference model: a live local ID is never given to a second "
         "full ID; no parent cycle among live objects",
@@ -964,6 +1047,7 @@ def run(run: Run):
                 v["witness"]["regions"] = nreg
                 v["witness"]["profile"] = profile
                 v["witness"]["locals"] = nl
+    flood_family(run)
     run.coverage_extra["observations"] = _observations()
     # private state that had to be located by type/shape instead of by its known name (workers are forked, so this is
     # measured on a fixed probe history in this process; misses depend on the tree, not on the history)
@@ -976,6 +1060,8 @@ def run(run: Run):
     run.coverage_extra["bounds"] = [{"profile": _p, "regions": a, "locals": _n, "depth": b, "deviation_bound": c} for _p, a, _n, b, c in bounds]
     for v in run.violations:
         wit = v["witness"]
+        if isinstance(wit, dict) and wit.get("family") == "flood":
+            continue
         try:
             wit["history"] = _minimise(Harness(int(wit["regions"]), wit.get("profile", "full"), int(wit.get("locals", NL))), wit["history"], v["clause"], v["site"])
         except Exception as e:  # best effort
@@ -983,5 +1069,7 @@ def run(run: Run):
 
 
 def replay(witness):
+    if witness.get("family") == "flood":
+        return _flood_case(int(witness["n"]))["violations"]
     h = Harness(int(witness.get("regions", 2)), witness.get("profile", "full"), int(witness.get("locals", NL)))
     return explore.replay_history(h, witness["history"])
